@@ -43,6 +43,9 @@ FLAVOURS = {
     "release-O3": ("-O3 -DNDEBUG", "-O2 -g", ""),
     # CMake's MinSizeRel: -Os defines __OPTIMIZE_SIZE__, which size-conscious code paths key on
     "size-Os": ("-Os -g -DDEBUG=true", "-O2 -g", ""),
+    # tuned for the build machine's instruction set (F16C, AVX2, BMI...): code paths under #ifdef __F16C__ / __AVX2__ /
+    # __SSE4_2__ exist only here, and the auto-vectoriser gets the wide instructions
+    "native-O3": ("-O3 -march=native -g -DDEBUG=true", "-O2 -g", ""),
     "ubsan-O2": ("-O2 -g -fsanitize=undefined -fno-sanitize=nonnull-attribute -fno-sanitize-recover=all -DDEBUG=true",
                  "-O2 -g -fsanitize=undefined -fno-sanitize=nonnull-attribute -fno-sanitize-recover=all", "-fsanitize=undefined"),
     # plain-O2 objects, linked with --wrap so any direct libc allocation call made by libcbor is seen
